@@ -36,14 +36,14 @@ its text designates from the context it is written in (through chains and cycles
 theorem resolve_ok_resolves_partial (w : World) (hC : CopyOK w) (fuel : Nat) (cx : Loc) (o : Obj) (s : St)
     (h : resolve w fuel cx o {} = .ok s) (hf : s.foreign = false) (ht : s.tclash = false) :
     ∀ r v, (r, v) ∈ s.value → ∃ f, designates w f r = some v :=
-  ((resolve_pres w hC fuel cx o {} s h ⟨hf, ht⟩).2 ⟨by intro i v h; simp at h, by intro t m h; simp at h⟩).1
+  ((resolve_pres w hC fuel cx o {} s (by rw [h]; rfl) ⟨hf, ht⟩).2 ⟨by intro i v h; simp at h, by intro t m h; simp at h⟩).1
 
 /-- (2) for a whole document: `load` walks the root positions of the root document. -/
 theorem load_ok_resolves_partial (w : World) (hC : CopyOK w) (fuel : Nat) (root : Loc) (s : St)
     (h : load w fuel root = .ok s) (hf : s.foreign = false) (ht : s.tclash = false) :
     ∀ r v, (r, v) ∈ s.value → ∃ f, designates w f r = some v := by
   unfold load at h
-  have := pres_foldRes w _ (fun k => resolve_pres w hC fuel root k) (w.roots root) _ s h ⟨hf, ht⟩
+  have := pres_foldRes w _ (fun k => resolve_pres w hC fuel root k) (w.roots root) _ s (by rw [h]; rfl) ⟨hf, ht⟩
   exact (this.2 ⟨by intro i v h; simp at h, by intro t m h; simp at h⟩).1
 
 
@@ -54,7 +54,7 @@ theorem designates_kind (w : World) : ∀ (f : Nat) (o v : Obj) (n nv : Node), d
   | f + 1, o, v, n, nv, h, hn, hv => by
     simp only [designates, hn] at h
     cases hr : n.ref with
-    | none => simp [hr] at h; subst h; rw [hn] at hv; cases hv; rfl
+    | none => simp [hr] at h; obtain ⟨_, h⟩ := h; subst h; rw [hn] at hv; cases hv; rfl
     | some t =>
       simp only [hr] at h
       cases ht : w.target n.home t n.kind with
@@ -74,20 +74,22 @@ theorem designates_kind (w : World) : ∀ (f : Nat) (o v : Obj) (n nv : Node), d
 /-- (3a) A reference whose target does not exist makes the resolution fail (it is not skipped, and nothing
 else is put in its place): evaluated with fuel, not yet resolved, not in progress. -/
 theorem dangling_fails (w : World) (fuel : Nat) (cx : Loc) (o : Obj) (n : Node) (t : Text) (s : St)
-    (hn : w.node o = some n) (hr : n.ref = some t) (hv : getC w s o = none) (hp : s.inprog.contains t = false)
+    (hn : w.node o = some n) (hne : n.empty = false) (hr : n.ref = some t) (hv : getC w s o = none)
+    (hp : s.inprog.contains (key n.kind t) = false)
     (hd : w.docOf cx t = none) (he : w.emptyTarget cx t n.kind = false) (ht : w.target cx t n.kind = none) :
     (resolve w (fuel + 1) cx o s).isOk = false := by
-  simp only [resolve, hn, hr, hv, hp, loadDoc, hd, he, ht]
+  simp only [resolve, hn, hne, hr, hv, hp, loadDoc, hd, he, ht]
   simp only [Option.isSome_none, Bool.false_eq_true, if_false]
   rfl
 
 /-- (3b) A reference whose target is of another kind makes the resolution fail. -/
 theorem wrong_kind_fails (w : World) (fuel : Nat) (cx cx' : Loc) (o tgt : Obj) (n tn : Node) (t : Text) (s : St)
-    (hn : w.node o = some n) (hr : n.ref = some t) (hv : getC w s o = none) (hp : s.inprog.contains t = false)
+    (hn : w.node o = some n) (hne : n.empty = false) (hr : n.ref = some t) (hv : getC w s o = none)
+    (hp : s.inprog.contains (key n.kind t) = false)
     (hd : w.docOf cx t = none) (he : w.emptyTarget cx t n.kind = false)
     (ht : w.target cx t n.kind = some (cx', tgt)) (htn : w.node tgt = some tn) (hk : tn.kind ≠ n.kind) :
     (resolve w (fuel + 1) cx o s).isOk = false := by
-  simp only [resolve, hn, hr, hv, hp, loadDoc, hd, he, ht, htn]
+  simp only [resolve, hn, hne, hr, hv, hp, loadDoc, hd, he, ht, htn]
   simp only [Option.isSome_none, Bool.false_eq_true, if_false, ne_eq, hk, not_false_eq_true, if_true]
   rfl
 
@@ -96,9 +98,10 @@ theorem wrong_kind_fails (w : World) (fuel : Nat) (cx cx' : Loc) (o tgt : Obj) (
 `resolve` is fuel-indexed; fuel bounds the NESTING depth only. Every nested call either descends to a child of a
 value (`rank` drops) or happens inside a visit that has put a new reference text into `visitedRefs`. -/
 
-/-- With fuel `(#texts + 1) · (R + 1)` — `R` a bound on the nesting depth of values — loading never runs out of fuel,
+/-- With fuel `(#keys + 1) · (R + 1)` — a key is a kind with a reference text, `R` a bound on the nesting depth of
+values — loading never runs out of fuel,
 for every store, every reference graph (cycles, chains, cross-document) and every `target`/`docOf`/`rewalk`. -/
-theorem load_terminates (w : World) (rank : Obj → Nat) (R : Nat) (T : List Text) (hR : Ranked w rank R) (hT : TextsIn w T)
+theorem load_terminates (w : World) (rank : Obj → Nat) (R : Nat) (T : List Nat) (hR : Ranked w rank R) (hT : TextsIn w T)
     (fuel : Nat) (root : Loc) (h : (T.length + 1) * (R + 1) ≤ fuel) : load w fuel root ≠ .outOfFuel := by
   unfold load
   apply foldRes_noOOF _ (fun _ => True) (fun _ _ _ _ _ => trivial)
@@ -120,11 +123,12 @@ theorem load_fuel_independent (w : World) (fuel g : Nat) (root : Loc) (r : Res)
 
 /-! ### (4) Completeness: every reference of the loaded graph has a value
 
-FULL STATEMENT (does not hold of the code, witnesses `w34`, `w48` below):
+FULL STATEMENT (does not hold of the code, witnesses `w34`, `w49` below):
   load w fuel root = .ok s → every reference object reachable from the root positions has a value.
-What is proved: the same for runs in which `unvisitRef` was never called with a nil value (a pure `$ref` cycle, #34),
-no backtrack callback met a value of another kind (F-C02-48) and no `errMUST…` was swallowed (the fragment `#`,
-#34) — three counters of the model, reported by the driver as the classes DegenerateTarget / KindClashUnresolved. -/
+What is proved: the same for runs in which `unvisitRef` was never called with a nil value (a pure `$ref` cycle, #34)
+and no `errMUST…` was swallowed — that of an empty target (the fragment `#`, #34), or that of a null member below
+the target (F-C02-49) — three counters of the model, reported by the driver as the classes DegenerateTarget /
+NullMemberSwallowed. -/
 
 theorem load_ok_complete_partial (w : World) (fuel : Nat) (root : Loc) (s : St)
     (h : load w fuel root = .ok s) (hc : Clean s) :
@@ -134,11 +138,11 @@ theorem load_ok_complete_partial (w : World) (fuel : Nat) (root : Loc) (s : St)
   have hs : Settled w s := hp ⟨by intro o v h; simp at h, by intro o h; simp at h, by intro o h; simp at h, by intro t o h; simp at h⟩
   have hroots := (foldRes_done _ (fun k => resolve_marks w fuel root k) _ _ _ h).2
   intro o n t hreach hn hr
-  have hd := reach_done w s root hs hroots o hreach
+  have hd := reach_done w s root hs hi.2 hroots o hreach
   rcases hs.refs o hd n t hn hr with hh | hpend
   · exact (getC_isSome_iff w s o).2 hh
-  · have := hs.pend t o hpend
-    rw [hi] at this
+  · have := hs.pend _ o hpend
+    rw [hi.1] at this
     simp at this
 
 /-- (2)+(4) together: in a clean run without foreign evaluation and without a text clash, every reference of the loaded graph (the copies the
@@ -172,6 +176,49 @@ theorem load_ok_no_dangling_partial (w : World) (hC : CopyOK w) (fuel : Nat) (ro
   rw [hnone f] at hd
   cases hd
 
+/-! ### (5) One Loader, several loads: "the outcome of a load is a function of that load's input alone"
+
+FULL STATEMENT (does not hold of the code, witness `w50`): `loadEntry w fuel e s = loadEntry w fuel e {}`.
+What is proved: every entry point resets the in-progress set and the backtrack table (table `Gen.loaderEntries`,
+`every_entry_resets` in section (T)), so a load depends on the Loader's past ONLY through the documents cache and the
+objects in it; with an empty cache it is the load of a fresh Loader; and whatever the cache holds, the values
+recorded stay right. The remaining dependence — a cached document is not walked again — is the flag `stale`
+(class StaleDocumentCache, F-C02-50). -/
+
+/-- the in-progress set, the backtrack table and every counter of the previous loads are irrelevant -/
+theorem entry_depends_on_cache_only (w : World) (fuel : Nat) (e : Entry) (he : e.resets = true) (s s' : St)
+    (hd : s.docs = s'.docs) (hv : s.value = s'.value) : loadEntry w fuel e s = loadEntry w fuel e s' := by
+  unfold loadEntry
+  simp only [he, if_true, St.reset, hd, hv]
+
+/-- on a Loader whose cache is empty (e.g. after `LoadFromData` loads without external references, failed or not)
+    a load is the load of a fresh Loader, whatever was left in progress -/
+theorem entry_after_cacheless_history (w : World) (fuel : Nat) (e : Entry) (he : e.resets = true) (s : St)
+    (hd : s.docs = []) (hv : s.value = []) : loadEntry w fuel e s = loadEntry w fuel e {} :=
+  entry_depends_on_cache_only w fuel e he s {} hd hv
+
+theorem entry_fresh_is_load (w : World) (fuel : Nat) (root : Loc) : loadEntry w fuel ⟨root, true, true⟩ {} = load w fuel root := by
+  simp [loadEntry, load, St.reset]
+
+/-- soundness along a history: whatever the earlier loads left in the cache (and however they ended), a load that
+    raises neither flag — and even when it FAILS — leaves only right values behind -/
+theorem entry_values_right_partial (w : World) (hC : CopyOK w) (fuel : Nat) (e : Entry) (he : e.resets = true) (s s' : St)
+    (hg : Good w s) (h : (loadEntry w fuel e s).st? = some s') (hf : s'.foreign = false) (ht : s'.tclash = false) :
+    Good w s' := by
+  unfold loadEntry at h
+  simp only [he, if_true] at h
+  have hi0 : Inv w s.reset := ⟨by simpa [Good, St.reset] using hg, by intro kt m hm; simp [St.reset] at hm⟩
+  by_cases hl : e.located = true
+  · simp only [hl, if_true] at h
+    split at h
+    · simp only [Res.st?, Option.some.injEq] at h; subst h
+      simpa [Good, St.reset] using hg
+    · have := pres_foldRes w _ (fun k => resolve_pres w hC fuel e.root k) (w.roots e.root) _ s' h ⟨hf, ht⟩
+      exact (this.2 ⟨by simpa [Good] using hi0.1, by simpa [PendingOK] using hi0.2⟩).1
+  · simp only [hl, Bool.false_eq_true, if_false] at h
+    have := pres_foldRes w _ (fun k => resolve_pres w hC fuel e.root k) (w.roots e.root) _ s' h ⟨hf, ht⟩
+    exact (this.2 hi0).1
+
 /-! ### (T) the ten resolvers have the skeleton and the child calls the model assumes
 
 `Gen.resolverSkeleton` is regenerated from openapi3/loader.go on every run. -/
@@ -187,6 +234,14 @@ theorem skeleton_table_recognised : ∀ r ∈ KinModel.Gen.resolverSkeleton, r.i
 theorem skeleton_matches_model :
     KinModel.Gen.resolverSkeleton =
       KinModel.LoaderJson.expectedSkeleton.map (fun r => KinModel.Gen.ResolverRow.row r.1 r.2.1 r.2.2) := by decide
+
+/-- every `Load…` entry point of the Loader begins — itself, or through the entry point it hands over to — with
+    `resetVisitedPathItemRefs()`: the model's `Entry.resets` is `true` for all of them (`ResolveRefsIn`, the one
+    exported routine that does not, is not a way to LOAD a document: it resets only a never-used Loader) -/
+theorem every_entry_resets :
+    KinModel.LoaderJson.entryPoints.map (·.1) = KinModel.LoaderJson.loadEntries ++ ["ResolveRefsIn"] ∧
+    ∀ e ∈ KinModel.LoaderJson.loadEntries,
+      KinModel.LoaderJson.entryResets KinModel.LoaderJson.entryPoints 4 e = true := by decide
 
 /-! ### (T) the child positions: walked (from the routines) and reference-capable (from the types)
 
@@ -230,8 +285,8 @@ theorem path_clean_agrees (segs : List String) (h : ∀ x ∈ segs, x ≠ "") :
     text 8 = "../b/b.json#/T". Objects: 0 root X = {$ref 7}; 1 a/x.json S (child 2 = {$ref 8}); 3 b/b.json T
     (child 4 = {$ref 7}); 5 b/x.json S. -/
 def w29 : World where
-  nodes := [⟨.schema, some 7, [], 0, none⟩, ⟨.schema, none, [2], 1, none⟩, ⟨.schema, some 8, [], 1, none⟩,
-            ⟨.schema, none, [4], 2, none⟩, ⟨.schema, some 7, [], 2, none⟩, ⟨.schema, none, [], 3, none⟩]
+  nodes := [⟨.schema, some 7, [], 0, none, false⟩, ⟨.schema, none, [2], 1, none, false⟩, ⟨.schema, some 8, [], 1, none, false⟩,
+            ⟨.schema, none, [4], 2, none, false⟩, ⟨.schema, some 7, [], 2, none, false⟩, ⟨.schema, none, [], 3, none, false⟩]
   roots := fun | 0 => [0] | 1 => [1] | 2 => [3] | 3 => [5] | _ => []
   docOf := fun c t => match t with
     | 7 => if c ≤ 1 then some 1 else some 3
@@ -247,33 +302,50 @@ theorem w29_model : (match load w29 20 0 with | .ok s => (s.get 4, s.foreign, s.
 theorem w29_spec : designates w29 5 4 = some 5 := by decide
 theorem w29_text_not_global : ¬ TextIsGlobal w29 := by
   intro h
-  have := h 0 4 ⟨.schema, some 7, [], 0, none⟩ ⟨.schema, some 7, [], 2, none⟩ 7 rfl rfl rfl rfl rfl
+  have := h 0 4 ⟨.schema, some 7, [], 0, none, false⟩ ⟨.schema, some 7, [], 2, none, false⟩ 7 rfl rfl rfl rfl rfl
   simp [w29] at this
 
-/-- F-C02-48 (what a04fe6c left of #12). Contexts 0 = /r/a/root.json, 1 = /r/a/x.json; text 0 =
-    "x.json#/components/responses/B". Objects: 0 root response A = {$ref 0}; 1 x.json response B (child 2);
-    2 header h = {$ref 0} — the same text, met while it is in progress as a response reference. Its callback finds a
-    value of another kind and returns; x.json is never walked again. -/
-def w48 : World where
-  nodes := [⟨.response, some 0, [], 0, none⟩, ⟨.response, none, [2], 1, none⟩, ⟨.header, some 0, [], 1, none⟩]
-  roots := fun | 0 => [0] | 1 => [1] | _ => []
-  docOf := fun _ _ => some 1
-  target := fun _ _ _ => some (1, 1)
+/-- F-C02-49 (null member below an untyped target). Object 0: root schema A = {$ref 0} ("#/x-defs/S"); object 1: the
+    schema under `x-defs` (not a root position: untyped, never walked on its own), child 2; object 2: a null entry
+    of its `properties`. `errMUSTSchema` raised at 2 is swallowed by the routine resolving 0. -/
+def w49 : World where
+  nodes := [⟨.schema, some 0, [], 0, none, false⟩, ⟨.schema, none, [2], 0, none, false⟩, ⟨.schema, none, [], 0, none, true⟩]
+  roots := fun _ => [0]
+  docOf := fun _ _ => none
+  target := fun _ _ _ => some (0, 1)
 
-/-- the header reference is of the wrong kind (it designates nothing), yet the document loads and the reference
-    stays without value -/
-theorem w48_model_loads_unresolved :
-    (match load w48 20 0 with | .ok s => (s.get 0, s.get 2, s.nskip != 0, s.foreign) | _ => (none, some 0, false, true))
-      = (some 1, none, true, false) := by decide
-theorem w48_spec : designates w48 5 2 = none := by decide
-theorem w48_kind_clash : ¬ NoKindClash w48 := by
-  intro h
-  have := h 0 2 ⟨.response, some 0, [], 0, none⟩ ⟨.header, some 0, [], 1, none⟩ 0 rfl rfl rfl rfl
-  simp at this
+/-- the reference designates the schema, yet the document loads and the reference stays without value -/
+theorem w49_model_loads_unresolved :
+    (match load w49 20 0 with | .ok s => (s.get 0, s.nswallow != 0, s.foreign, s.tclash) | _ => (some 0, false, true, true))
+      = (none, true, false, false) := by decide
+theorem w49_spec : designates w49 5 0 = some 1 := by decide
+
+/-- F-C02-50 (the documents cache outlives a load). Contexts 0 = /r/a/root1.json, 1 = /r/a/x.json, 2 = /r/a/root2.json.
+    Objects: 0 root1 R = {$ref 0} ("x.json#/components/schemas/A"); x.json: 1 = A (child 3), 2 = B (no child);
+    3 = {$ref 1}, dangling; 4 root2 R = {$ref 2} ("x.json#/components/schemas/B").
+    Load 1 (root1) fails at 3 while x.json is being walked — and leaves x.json in the cache. Load 2 (root2) on the same
+    Loader takes x.json from the cache, never walks it and succeeds; on a fresh Loader it fails (the dangling
+    reference of x.json is reported): the outcome of a load depends on the loads before it. -/
+def w50 : World where
+  nodes := [⟨.schema, some 0, [], 0, none, false⟩, ⟨.schema, none, [3], 1, none, false⟩, ⟨.schema, none, [], 1, none, false⟩,
+            ⟨.schema, some 1, [], 1, none, false⟩, ⟨.schema, some 2, [], 2, none, false⟩]
+  roots := fun | 0 => [0] | 1 => [1, 2] | 2 => [4] | _ => []
+  docOf := fun _ t => if t = 1 then none else some 1
+  target := fun _ t _ => match t with
+    | 0 => some (1, 1)
+    | 1 => none
+    | _ => some (1, 2)
+
+theorem w50_history_changes_outcome :
+    ((loadSeq w50 20 [⟨0, true, true⟩, ⟨2, true, true⟩] {}).map
+        (fun r => match r with | .ok s => (1, s.stale) | .err _ _ => (2, false) | .outOfFuel => (3, false)))
+      = [(2, false), (1, true)]
+    ∧ (match load w50 20 2 with | .err _ _ => true | _ => false) = true := by decide
+theorem w50_spec : designates w50 5 3 = none := by decide
 
 /-- #34. Object 0 = {$ref 0} pointing at itself (object 1 is the resolver's local copy): loads, stays unresolved. -/
 def w34 : World where
-  nodes := [⟨.schema, some 0, [], 0, none⟩, ⟨.schema, some 0, [], 0, some 0⟩]
+  nodes := [⟨.schema, some 0, [], 0, none, false⟩, ⟨.schema, some 0, [], 0, some 0, false⟩]
   roots := fun _ => [0]
   docOf := fun _ _ => none
   target := fun _ _ _ => some (0, 1)
@@ -285,8 +357,8 @@ theorem w34_spec : ∀ f, f ≤ 8 → designates w34 f 0 = none := by decide
     {$ref 0} ("../x.json#/S"); 1 x.json S (child 2); 2 = {$ref 1} ("../r/b/y.json#/A", fine from /r, a missing
     file from /r/b); 3 the resolver's copy of object 0. -/
 def w47 : World where
-  nodes := [⟨.schema, some 0, [], 0, none⟩, ⟨.schema, none, [2], 1, none⟩, ⟨.schema, some 1, [], 1, none⟩,
-            ⟨.schema, some 0, [], 0, some 0⟩]
+  nodes := [⟨.schema, some 0, [], 0, none, false⟩, ⟨.schema, none, [2], 1, none, false⟩, ⟨.schema, some 1, [], 1, none, false⟩,
+            ⟨.schema, some 0, [], 0, some 0, false⟩]
   roots := fun | 0 => [0] | 1 => [1] | _ => []
   docOf := fun c t => match t with
     | 0 => some 1
@@ -296,7 +368,7 @@ def w47 : World where
     | _ => if c = 1 then some (0, 3) else none
 
 /-- every reference designates an object, yet loading fails — after evaluating a reference in a foreign context -/
-theorem w47_model_fails : (match load w47 20 0 with | .err fl => fl.foreign && !fl.tclash | _ => false) = true := by decide
+theorem w47_model_fails : (match load w47 20 0 with | .err _ s => s.foreign && !s.tclash | _ => false) = true := by decide
 theorem w47_spec : designates w47 5 0 = some 1 ∧ designates w47 5 2 = some 1 := by decide
 theorem w47_text_global : TextIsGlobal w47 := by
   have key : ∀ o n, w47.node o = some n → ∀ t, n.ref = some t → n.home = (if t = 0 then 0 else 1) ∧ n.kind = .schema := by
@@ -314,18 +386,31 @@ theorem w47_text_global : TextIsGlobal w47 := by
     (the same text). The callback of the header no longer panics; B is a root position, so h is met again outside
     the visit of A and the wrong kind is reported. -/
 def w12 : World where
-  nodes := [⟨.response, some 0, [], 0, none⟩, ⟨.response, none, [2], 0, none⟩, ⟨.header, some 0, [], 0, none⟩]
+  nodes := [⟨.response, some 0, [], 0, none, false⟩, ⟨.response, none, [2], 0, none, false⟩, ⟨.header, some 0, [], 0, none, false⟩]
   roots := fun _ => [0, 1]
   docOf := fun _ _ => none
   target := fun _ _ _ => some (0, 1)
 
-theorem w12_regression_load_fails : (match load w12 20 0 with | .err _ => true | _ => false) = true := by decide
+theorem w12_regression_load_fails : (match load w12 20 0 with | .err _ _ => true | _ => false) = true := by decide
 theorem w12_spec : designates w12 5 2 = none := by decide
+
+/-- F-C02-48 (fixed 7245059). Contexts 0 = /r/a/root.json, 1 = /r/a/x.json; text 0 = "x.json#/components/responses/B".
+    Objects: 0 root response A = {$ref 0}; 1 x.json response B (child 2); 2 header h = {$ref 0} — the same text, met
+    while it is in progress as a RESPONSE reference. The in-progress set is keyed by kind and text: the header
+    reference is resolved on its own and its wrong kind is reported. -/
+def w48 : World where
+  nodes := [⟨.response, some 0, [], 0, none, false⟩, ⟨.response, none, [2], 1, none, false⟩, ⟨.header, some 0, [], 1, none, false⟩]
+  roots := fun | 0 => [0] | 1 => [1] | _ => []
+  docOf := fun _ _ => some 1
+  target := fun _ _ _ => some (1, 1)
+
+theorem w48_regression_load_fails : (match load w48 20 0 with | .err _ _ => true | _ => false) = true := by decide
+theorem w48_spec : designates w48 5 2 = none := by decide
 
 /-- #13 / F-C02-13 (fixed cbb0d05). Object 0: a response value whose child 1 (a header under content.encoding,
     formerly never visited) refers to the header 2. -/
 def w13 : World where
-  nodes := [⟨.response, none, [1], 0, none⟩, ⟨.header, some 0, [], 0, none⟩, ⟨.header, none, [], 0, none⟩]
+  nodes := [⟨.response, none, [1], 0, none, false⟩, ⟨.header, some 0, [], 0, none, false⟩, ⟨.header, none, [], 0, none, false⟩]
   roots := fun _ => [0, 2]
   docOf := fun _ _ => none
   target := fun _ _ _ => some (0, 2)
@@ -336,8 +421,8 @@ theorem w13_regression_resolved :
 /-- F-C02-46 (fixed 9b25d89). Contexts 0 = root, 1 = /r/b/x.json. Objects: 0 path item /a = {$ref 0} ("#/paths/~1b");
     1 path item /b = {$ref 1} ("../b/x.json#/paths/~1c"); 2 x.json /c (a value); 3 the resolver's copy of /b. -/
 def w46 : World where
-  nodes := [⟨.pathItem, some 0, [], 0, none⟩, ⟨.pathItem, some 1, [], 0, none⟩, ⟨.pathItem, none, [], 1, none⟩,
-            ⟨.pathItem, some 1, [], 0, some 1⟩]
+  nodes := [⟨.pathItem, some 0, [], 0, none, false⟩, ⟨.pathItem, some 1, [], 0, none, false⟩, ⟨.pathItem, none, [], 1, none, false⟩,
+            ⟨.pathItem, some 1, [], 0, some 1, false⟩]
   roots := fun | 0 => [0, 1] | 1 => [2] | _ => []
   docOf := fun _ t => if t = 1 then some 1 else none
   target := fun _ t _ => if t = 0 then some (0, 3) else some (1, 2)
@@ -351,8 +436,8 @@ theorem w46_regression_chain_resolved :
 /-- A mutual cycle across two documents: 0 root R = {$ref 0} → 1 (A, children 2); 2 = {$ref 1} → 3 (B, child 4);
     4 = {$ref 0} back to A. Every text is written in one place. -/
 def wCycle : World where
-  nodes := [⟨.schema, some 0, [], 0, none⟩, ⟨.schema, none, [2], 1, none⟩, ⟨.schema, some 1, [], 1, none⟩,
-            ⟨.schema, none, [4], 1, none⟩, ⟨.schema, some 0, [], 1, none⟩]
+  nodes := [⟨.schema, some 0, [], 0, none, false⟩, ⟨.schema, none, [2], 1, none, false⟩, ⟨.schema, some 1, [], 1, none, false⟩,
+            ⟨.schema, none, [4], 1, none, false⟩, ⟨.schema, some 0, [], 1, none, false⟩]
   roots := fun | 0 => [0] | 1 => [1, 3] | _ => []
   docOf := fun c t => if t = 0 ∧ c = 0 then some 1 else none
   target := fun _ t _ => match t with
@@ -370,13 +455,13 @@ example : CopyOK wCycle := by
   rcases c with _ | _ | _ | _ | _ | c <;> simp [World.node, wCycle] at hn <;> subst hn <;> simp at ho
 
 /-- the hypotheses of `load_terminates` hold of it (rank 1 for the two values with a child), the bound is 6 -/
-example : Ranked wCycle (fun o => if o = 1 ∨ o = 3 then 1 else 0) 1 ∧ TextsIn wCycle [0, 1] ∧
-    (match load wCycle 6 0 with | .ok s => s.nnil + s.nskip + s.nempty == 0 | _ => false) = true := by
+example : Ranked wCycle (fun o => if o = 1 ∨ o = 3 then 1 else 0) 1 ∧ TextsIn wCycle [key .schema 0, key .schema 1] ∧
+    (match load wCycle 6 0 with | .ok s => s.nnil + s.nempty + s.nswallow == 0 | _ => false) = true := by
   refine ⟨⟨?_, ?_⟩, ?_, by decide⟩
   · intro o n _; show (if o = 1 ∨ o = 3 then 1 else 0) ≤ 1; split <;> omega
   · intro o n k hn hr hk
     rcases o with _ | _ | _ | _ | _ | o <;> simp [World.node, wCycle] at hn <;> subst hn <;> simp at hr hk ⊢ <;> subst hk <;> simp
   · intro o n t hn hr
-    rcases o with _ | _ | _ | _ | _ | o <;> simp [World.node, wCycle] at hn <;> subst hn <;> simp at hr ⊢ <;> subst hr <;> simp
+    rcases o with _ | _ | _ | _ | _ | o <;> simp [World.node, wCycle] at hn <;> subst hn <;> simp at hr ⊢ <;> subst hr <;> simp [key, Kind.idx]
 
 end KinModel.Loader
